@@ -22,7 +22,7 @@ REQUIRED_PROBES = ["sensors.Sensors.generate", "sensors.Sensors.angular_velociti
 RULE = ("cases = Sensors(num_samples=N) with N in 10..600 or Sensors(quaternions=Q) with smooth harness-generated trajectories (rate <= 2 rad/s, |pitch| kept "
         "away from gimbal lock), sampling 20..400 Hz, degrees or radians, normalised magnetometer on/off, default or custom reference vectors, each noise "
         "level zero or non-zero (all-zero = noise-free region); the options of the random-trajectory generator (yaw, span, both, neither) on a fixed schedule; one given "
-        "trajectory in eight drifts by 1e-7..1e-5 rad/s; the module-level random generator is re-seeded per case; non-trivial = all")
+        "trajectory in four (noise-free and noisy alike) drifts by 1e-7..1e-5 rad/s; the module-level random generator is re-seeded per case; non-trivial = all")
 ASSUMPTIONS = ["gyr_noise is documented as 'scaled to the units of the gyroscope data': the applied sigma is gyr_noise (deg/s) x DEG2RAD for radian output",
                "re-integration is judged for trajectories turning at most 0.5 rad per sample (bounded rate); recovered angular rates are first order: per step the integrated angle is x = 2 sin(theta/2) instead of theta, so the re-integration budget is sum (2 asin(x/2) - x) + 1e-9 (exact bound, errors add at most)", "noise levels are compared with 6-sigma chi-square bounds",
                "the module-level GENERATOR of ahrs.utils.sensors is replaced by a seeded generator before every case (determinism of the check, not of the library)"]
@@ -76,7 +76,7 @@ def generate(rng, tier, shard, nshards):
                 kw["span"] = (float(-gens.logu(rng, 0.2, 8.0)), float(gens.logu(rng, 0.2, 8.0)))       # narrower and wider than the default half turn each way
             if combo in (0, 1):
                 kw["yaw"] = float(rng.uniform(-170, 170)) if (i // 16) % 3 else float(rng.choice([0.0, 90.0, -180.0, 180.0]))
-        Q = smooth_quats(rng, N, 1.0 / freq, slow=(i % 8 == 7)) if given else None
+        Q = smooth_quats(rng, N, 1.0 / freq, slow=(i % 16 in (1, 7))) if given else None
         if given and i % 8 in (3, 5):
             # a trajectory read from a log: quaternions rounded to a few decimals (nearly, not exactly, unit) or stored with a common scale
             Q = np.round(Q, int(rng.integers(4, 9))) if i % 8 == 3 else Q * gens.logu(rng, 0.5, 2.0)
